@@ -373,6 +373,10 @@ impl<'a, R: Clone> AsyncGlobalCache<'a, R> {
                         || self.policy == EvictionPolicy::TLRU)
                 {
                     if self.cache.contains_key(key) {
+                        #[cfg(feature = "verif")]
+                        crate::verif::yield_point(2001, crate::verif::addr_of(self.order), crate::verif::Acq::Exclusive, &|| !self.order.is_locked());
+                        #[cfg(feature = "verif")]
+                        let _verif_held_1 = crate::verif::hold(crate::verif::addr_of(self.order));
                         let mut order = self.order.lock();
                         // Double-check after acquiring lock
                         if self.cache.contains_key(key) {
@@ -390,6 +394,10 @@ impl<'a, R: Clone> AsyncGlobalCache<'a, R> {
 
             // Remove from cache and order queue under the order lock, so that a
             // concurrent re-insert of the same key cannot lose its queue entry
+            #[cfg(feature = "verif")]
+            crate::verif::yield_point(2002, crate::verif::addr_of(self.order), crate::verif::Acq::Exclusive, &|| !self.order.is_locked());
+            #[cfg(feature = "verif")]
+            let _verif_held_2 = crate::verif::hold(crate::verif::addr_of(self.order));
             let mut order = self.order.lock();
             self.cache.remove(key);
             order.retain(|k| k != key);
@@ -447,6 +455,10 @@ impl<'a, R: Clone> AsyncGlobalCache<'a, R> {
             .unwrap()
             .as_secs();
 
+        #[cfg(feature = "verif")]
+        crate::verif::yield_point(2003, crate::verif::addr_of(self.order), crate::verif::Acq::Exclusive, &|| !self.order.is_locked());
+        #[cfg(feature = "verif")]
+        let _verif_held_3 = crate::verif::hold(crate::verif::addr_of(self.order));
         let mut order = self.order.lock();
 
         // Check if another task already inserted this key while we were computing
@@ -799,6 +811,10 @@ impl<'a, R: Clone + crate::MemoryEstimator> AsyncGlobalCache<'a, R> {
             .unwrap()
             .as_secs();
 
+        #[cfg(feature = "verif")]
+        crate::verif::yield_point(2004, crate::verif::addr_of(self.order), crate::verif::Acq::Exclusive, &|| !self.order.is_locked());
+        #[cfg(feature = "verif")]
+        let _verif_held_4 = crate::verif::hold(crate::verif::addr_of(self.order));
         let mut order = self.order.lock();
 
         // Check if another task already inserted this key while we were computing
